@@ -139,12 +139,6 @@ Print Assumptions false_branch_elided.
 (* ---- the #if line itself: whatever its arguments, its only effects are the scope push, the choice of the ignore
    depth (0 or 1) and diagnostics ---- *)
 Require Import Eqd.
-Lemma check_formats_eqd fs : forall s, check_formats fs s ~~ s.
-Proof. unfold check_formats. induction fs as [|f r IH]; intro s; [reflexivity|]. cbn [fold_left].
-  destruct (valid_format f); [apply IH|]. eapply eqd_trans; [apply IH|apply err_eqd]. Qed.
-Lemma formats_of_eqd a s : snd (formats_of a s) ~~ s.
-Proof. unfold formats_of. pose proof (inlines_text_eqd a s) as H. destruct (inlines_text a s). exact H. Qed.
-
 Lemma macro_if_start_spec s : has_cur s = true -> ifdepth s = 0%nat ->
   exists sc d, (d = 0%nat \/ d = 1%nat) /\ macro_if_start s ~~ s <| sif ::= fun x => x ++ [sc] |> <| ifdepth := d |>.
 Proof.
@@ -187,9 +181,6 @@ Print Assumptions macro_if_start_spec.
 (* ---- a whole conditional block whose condition is false, dispatched at top level ---- *)
 Lemma eqd_eqc a b : a ~~ b -> a =c= b.
 Proof. intro H. unfold eqc, eqd in *. transitivity (nfc (nd a)); [destruct a; reflexivity|]. rewrite H. destruct b; reflexivity. Qed.
-Lemma eqd_get {A} (g : st -> A) a b : (forall s, g (nd s) = g s) -> a ~~ b -> g a = g b.
-Proof. intros Hg H. rewrite <- (Hg a), <- (Hg b). unfold eqd in H. rewrite H. reflexivity. Qed.
-
 Theorem false_conditional_is_absent pb a l body n2 a2 l2 c s :
   let b := BMacro (R "#if") a l in
   ifdepth s = 0%nat -> udef s = None -> elided s = false -> panicked s = None ->
